@@ -7,6 +7,8 @@ category into the verdict message; the result generators are consumed in a chose
 (`PlaybackModel/Studio.lean`, handler `c19.play`) runs the same case; the oracle restates the property directly.
 """
 import datetime
+import json
+import os
 import shutil
 import sys
 import tempfile
@@ -97,10 +99,36 @@ class C19(Prop):
                 categories = [rng.choice(CATS) for _ in range(rng.randint(1, 5))] if rng.random() < .3 \
                     else rng.sample(CATS, rng.randint(1, 4))
             case = {'cassette': cassette, 'recs': recs, 'explicit': explicit, 'categories': categories,
-                    'skip_incomplete': rng.random() < .7, 'failing': failing, 'keep': rng.random() < .3}
+                    'skip_incomplete': rng.random() < .7, 'failing': failing, 'keep': rng.random() < .3,
+                    'resave': sorted(rng.sample(range(nrec), rng.randint(1, min(3, nrec)))) if nrec and rng.random() < .25 else []}
             case['order'] = self.make_order(case, rng)
             cases.append(case)
+        # the same kind of run with every category's comparisons in a dedicated worker process, the categories' generators
+        # consumed interleaved (each category has its own worker; one category's run must not disturb another's)
+        base = [c for c in cases if len(self.expected_groups(c)) >= 2 and not c['keep'] and len(c['recs']) >= 3]
+        for c in base[:6 if tier == 'quick' else 60]:
+            d = dict(c, dedicated=True)
+            groups = self.expected_groups(d)
+            live = sorted(k for k in groups if k not in d['failing'])
+            order, left = [], {k: len(groups[k]) + 1 for k in live}
+            while any(left.values()):
+                for k in live:
+                    if left[k]:
+                        order.append(k)
+                        left[k] -= 1
+            d['order'] = order
+            cases.append(d)
         return cases
+
+    def run_all_impl(self, cases):
+        # a dedicated-process studio run forks workers: it cannot run inside a (daemonic) pool worker
+        plain = [c for c in cases if not c.get('dedicated')]
+        res = dict(zip([id(c) for c in plain], super(C19, self).run_all_impl(plain)))
+        from harness.engine import _impl_worker
+        for c in cases:
+            if c.get('dedicated'):
+                res[id(c)] = _impl_worker((self, c))
+        return [res[id(c)] for c in cases]
 
     @staticmethod
     def expected_groups(case):
@@ -209,6 +237,12 @@ class C19(Prop):
                     raise RuntimeError('recording an operation of %s created %d recordings' % (cat, len(new)))
                 ids.append(new.pop())
                 known = now
+            # some recordings are fetched, annotated and saved again under their id before the studio runs
+            for i in case.get('resave', []):
+                if i < len(ids):
+                    again = cassette.get_recording(ids[i])
+                    again.add_metadata({'reviewed': True})
+                    cassette.save_recording(again)
             index = {rid: i for i, rid in enumerate(ids)}
 
             def token(rid):
@@ -216,7 +250,30 @@ class C19(Prop):
                     return index[rid]
                 return unknown.get(rid, 'unexpected:%s' % rid)
             unknown = {}
-            log = []
+            class _Log(list):
+                """the replays that were executed; with dedicated worker processes the entries are made in the workers, so they
+                go through a file (one line per replay, appended atomically)"""
+                path = None
+
+                def append(self, item):
+                    if self.path:
+                        with open(self.path, 'a') as f:
+                            f.write(json.dumps(item) + '\n')
+                    else:
+                        list.append(self, item)
+
+                def collect(self):
+                    if self.path and os.path.exists(self.path):
+                        with open(self.path) as f:
+                            rows = [json.loads(l) for l in f if l.strip()]
+                        os.unlink(self.path)
+                        self.path = None
+                        list.extend(self, rows)
+                    return list(self)
+            log = _Log()
+            if case.get('dedicated'):
+                fd, log.path = tempfile.mkstemp(prefix='verif-c19-log-')
+                os.close(fd)
             failing = set(case['failing'])
 
             class Tuner(EqualizerTuner):
@@ -253,17 +310,23 @@ class C19(Prop):
                         unknown[rid] = '?%d' % e[2]
                         sel.append(rid)
                 studio = PlaybackStudio(case['categories'], Tuner(), tr, recording_ids=sel,
-                                        compare_execution_config=CompareExecutionConfig(keep_results_in_comparison=case['keep']))
+                                        compare_execution_config=CompareExecutionConfig(
+                                            keep_results_in_comparison=case['keep'],
+                                            compare_in_dedicated_process=bool(case.get('dedicated')),
+                                            compare_process_recycle_rate=5, compare_process_timeout=120))
             else:
                 props = RecordingLookupProperties(start_date=datetime.datetime.utcnow() - datetime.timedelta(days=1),
                                                   skip_incomplete=case['skip_incomplete'])
                 studio = PlaybackStudio(case['categories'], Tuner(), tr, lookup_properties=props,
-                                        compare_execution_config=CompareExecutionConfig(keep_results_in_comparison=case['keep']))
+                                        compare_execution_config=CompareExecutionConfig(
+                                            keep_results_in_comparison=case['keep'],
+                                            compare_in_dedicated_process=bool(case.get('dedicated')),
+                                            compare_process_recycle_rate=5, compare_process_timeout=120))
             before = listing()
             try:
                 result = studio.play()
             except Exception as ex:      # the property says a failing tuner is reported per category, play() itself works
-                return {'cats': [], 'errors': {}, 'final': {}, 'after_order': {}, 'log': log, 'idle': True,
+                return {'cats': [], 'errors': {}, 'final': {}, 'after_order': {}, 'log': log.collect(), 'idle': True,
                         'cassette_unchanged': True, 'play_raised': [type(ex).__name__, str(ex)]}
             cats = list(result.keys())
             got = {k: [] for k in cats}
@@ -309,7 +372,8 @@ class C19(Prop):
                 except Exception as ex:
                     got[k].append(['raised', type(ex).__name__, str(ex), None, None])
             return {'cats': cats, 'errors': errors, 'final': {k: v for k, v in got.items() if k not in errors},
-                    'after_order': after_order, 'log': log, 'idle': idle, 'cassette_unchanged': listing() == before}
+                    'after_order': after_order, 'log': sorted(log.collect()) if case.get('dedicated') else log.collect(),
+                    'idle': idle, 'cassette_unchanged': listing() == before}
         finally:
             shutil.rmtree(tmp, ignore_errors=True)
 
@@ -337,7 +401,7 @@ class C19(Prop):
         req = {'m': 'c19.play', 'cats': cats,
                'stored': [[i, rank[c], bool(inc), True] for i, (c, v, inc) in enumerate(case['recs'])],
                'failing': [[rank[c], tuner_error(c)] for c in case['failing']],
-               'beh': beh, 'keep': case['keep'], 'rate': 5, 'timeoutMs': 600000, 'dedicated': False,
+               'beh': beh, 'keep': case['keep'], 'rate': 5, 'timeoutMs': 600000, 'dedicated': bool(case.get('dedicated')),
                'skipIncomplete': case['skip_incomplete'], 'limit': None,
                'categories': [rank[c] for c in case['categories']] if not case['explicit'] else [],
                'ids': ids, 'order': [rank[k] for k in case['order']]}
